@@ -50,15 +50,19 @@ def _make_resolver(ctx, mod, extra):
     if name in extra:
       return extra[name](*args, **kw)
     head, _, fname = name.rpartition(".")
-    if head and "." not in head:
+    if not head and fname in mod.functions and "." not in fname:
+      funcs = mod.functions          # a helper defined in the same module
+    elif head and "." not in head:
       funcs = _resolve_module_funcs(ctx, mod, head)
-      if funcs is not None and fname in funcs:
-        fn = funcs[fname]
-        params = [p.arg for p in fn.args.posonlyargs + fn.args.args]
-        if len(args) > len(params):
-          raise me.Outside(f"call of {name}")
-        it = me.Interp(fn, resolver=state["resolver"])
-        return it.call({**dict(zip(params, args)), **kw})
+    else:
+      funcs = None
+    if funcs is not None and fname in funcs:
+      fn = funcs[fname]
+      params = [p.arg for p in fn.args.posonlyargs + fn.args.args]
+      if len(args) > len(params):
+        raise me.Outside(f"call of {name}")
+      it = me.Interp(fn, resolver=state["resolver"])
+      return it.call({**dict(zip(params, args)), **kw})
     return NotImplemented
   state["resolver"] = resolver
   return resolver
